@@ -73,12 +73,16 @@ def fastcopy(v):
 def same_value(a, b) -> bool:
     if type(a) is not type(b):
         return False
-    if type(a) is np.ndarray:
+    t = type(a)
+    if t is np.ndarray:
         return a.dtype == b.dtype and a.shape == b.shape and a.tobytes() == b.tobytes()
-    try:
-        return bool(a == b)
-    except Exception:  # e.g. containers holding arrays
-        return freeze(a) == freeze(b)
+    if t in _IMMUTABLE_T or t in (list, tuple, dict, set, frozenset) or isinstance(a, (enum.Enum, Contract)):
+        try:
+            return bool(a == b)
+        except Exception:  # e.g. containers holding arrays
+            return freeze(a) == freeze(b)
+    # an object the explorer does not understand (an iterator, a lock, ...): equality would be identity, and a copy is never identical
+    return freeze(a) == freeze(b)
 
 
 def same_state(o, saved) -> bool:
